@@ -899,6 +899,9 @@ func (s *dbSuite) gen(r *rand.Rand, step int) string {
 	}
 	if !s.inTx {
 		x := r.Intn(40)
+		if s.optRng != nil && x < 4 {
+			x = 0 // options matter most around Close/Open: reopen often
+		}
 		if s.mergeNext {
 			s.mergeNext = false
 			x = 1
